@@ -14,6 +14,18 @@
 //!   hdr sresp <status> <fields>       Header::response(..).into_iter()
 //!   hdr strl <fields>                 Header::trailer(..).into_iter()
 //!   hdr verdicts <fields>             (generator pre-pass) prints the verdict token for <fields>
+//!   hdr wreq <method> <scheme|~> <authority|~> <path|~> <proto|~> <fields>   the same `http::Request` through the real
+//!                                     `client::SendRequest::send_request` (private in-memory transport); answer
+//!                                     `wire <hex>` = every byte h3 wrote on the request stream (the check's projection
+//!                                     has the reference decoder read it: driver op `hdr dec <hex>`), `reject` when the
+//!                                     call fails
+//!   hdr wresp <status> <fields>       real server: accept + resolve_request + `RequestStream::send_response`; `wire <hex>`
+//!   hdr wtrlc <fields>                real client: send_request(GET) + `RequestStream::send_trailers`; `wire <hex>` = the
+//!                                     bytes written after the request's own HEADERS frame
+//!   hdr wtrls <fields>                real server: … + send_response(200) + `RequestStream::send_trailers`; the same
+//!   hdr trlc <fields> <verdicts>      trailers RECEIVED through the public `client::RequestStream::{recv_data, recv_trailers}`
+//!                                     (response 200, then the section as a second HEADERS frame, FIN); printed as `trl`
+//!   hdr trls <fields> <verdicts>      … through `server::RequestStream::{recv_data, recv_trailers}` (request GET, the section, FIN)
 //!
 //! <fields> = `[]` or `name=value,name=value*K,...` (`*K` repeats the field K times).
 //! <verdicts> = `v[e;e;...]`: what the `http` crate's parsers answer, *called directly* (not through
@@ -442,6 +454,227 @@ fn client_site(fields: &FieldList) -> String {
     }
 }
 
+
+// ---------------------------------------------------------------- the public send calls, and what they write
+
+fn wire(bytes: &[u8]) -> String {
+    format!("wire {}", to_hex(bytes))
+}
+
+fn get_frame() -> Bytes {
+    headers_frame(&vec![
+        (b":method".to_vec(), b"GET".to_vec()),
+        (b":scheme".to_vec(), b"https".to_vec()),
+        (b":authority".to_vec(), b"a.com".to_vec()),
+        (b":path".to_vec(), b"/".to_vec()),
+    ])
+    .expect("request frame")
+}
+
+fn ok200_frame() -> Bytes {
+    headers_frame(&vec![(b":status".to_vec(), b"200".to_vec())]).expect("response frame")
+}
+
+type ClientStream = h3::client::RequestStream<crate::c12_sim::SimStream, Bytes>;
+type ServerStream = h3::server::RequestStream<crate::c12_sim::SimStream, Bytes>;
+
+/// a real client and the request stream of `send_request(req)`
+fn client_with_request(req: http::Request<()>) -> Result<(crate::c12_sim::NetRef, ClientStream, Box<dyn std::any::Any>), String> {
+    let net = Net::new(false);
+    let mut builder = h3::client::builder();
+    let mut f: Pin<Box<dyn Future<Output = _>>> = Box::pin(builder.build::<_, _, Bytes>(SimConn { net: net.clone() }));
+    let Some(Ok((conn, mut send))) = drive(&mut f) else { return Err("client-build-failed".into()) };
+    drop(f);
+    let stream = {
+        let mut f = Box::pin(send.send_request(req));
+        match drive(&mut f) {
+            Some(Ok(s)) => s,
+            Some(Err(_)) => return Err("reject".into()),
+            None => return Err("send-request-pending".into()),
+        }
+    };
+    Ok((net, stream, Box::new((conn, send))))
+}
+
+/// a real server and the request stream of accept + resolve_request for the peer's bytes on stream 0
+fn server_with_request(chunks: Vec<Bytes>) -> Result<(crate::c12_sim::NetRef, ServerStream, Box<dyn std::any::Any>), String> {
+    let net = Net::new(true);
+    let builder = h3::server::builder();
+    let mut f: Pin<Box<dyn Future<Output = _>>> = Box::pin(builder.build::<_, Bytes>(SimConn { net: net.clone() }));
+    let Some(Ok(mut conn)) = drive(&mut f) else { return Err("server-build-failed".into()) };
+    drop(f);
+    {
+        let mut n = net.borrow_mut();
+        n.peer_open(2);
+        n.peer_send(2, Rx::Chunk(Bytes::from_static(&[0x00, 0x04, 0x00])));
+        n.peer_open(0);
+        for c in chunks {
+            n.peer_send(0, Rx::Chunk(c));
+        }
+        n.peer_send(0, Rx::Fin);
+    }
+    let resolver = {
+        let mut f = Box::pin(conn.accept());
+        match drive(&mut f) {
+            Some(Ok(Some(r))) => r,
+            _ => return Err("accept-failed".into()),
+        }
+    };
+    let mut f = Box::pin(resolver.resolve_request());
+    let stream = match drive(&mut f) {
+        Some(Ok((_req, stream))) => stream,
+        _ => return Err("resolve-failed".into()),
+    };
+    drop(f);
+    Ok((net, stream, Box::new(conn)))
+}
+
+fn request_from(method: Method, uri: Uri, map: HeaderMap, ext: Extensions) -> http::Request<()> {
+    let mut req = http::Request::new(());
+    *req.method_mut() = method;
+    *req.uri_mut() = uri;
+    *req.headers_mut() = map;
+    *req.extensions_mut() = ext;
+    req
+}
+
+/// `SendRequest::send_request`: everything written on the request stream
+fn send_request_site(method: Method, uri: Uri, map: HeaderMap, ext: Extensions) -> String {
+    match client_with_request(request_from(method, uri, map, ext)) {
+        Ok((net, _stream, _keep)) => {
+            let tx = net.borrow().tx(0);
+            wire(&tx)
+        }
+        Err(e) => e,
+    }
+}
+
+/// `server::RequestStream::send_response`
+fn send_response_site(status: StatusCode, map: HeaderMap) -> String {
+    let (net, mut stream, _keep) = match server_with_request(vec![get_frame()]) {
+        Ok(x) => x,
+        Err(e) => return e,
+    };
+    let mut resp = http::Response::new(());
+    *resp.status_mut() = status;
+    *resp.headers_mut() = map;
+    let mut f = Box::pin(stream.send_response(resp));
+    match drive(&mut f) {
+        Some(Ok(())) => {}
+        Some(Err(_)) => return "send-response-failed".into(),
+        None => return "send-response-pending".into(),
+    }
+    let tx = net.borrow().tx(0);
+    wire(&tx)
+}
+
+/// `client::RequestStream::send_trailers` / `server::RequestStream::send_trailers`: what is written after the head
+fn send_trailers_site(server: bool, map: HeaderMap) -> String {
+    if server {
+        let (net, mut stream, _keep) = match server_with_request(vec![get_frame()]) {
+            Ok(x) => x,
+            Err(e) => return e,
+        };
+        {
+            let mut f = Box::pin(stream.send_response(http::Response::new(())));
+            if !matches!(drive(&mut f), Some(Ok(()))) {
+                return "send-response-failed".into();
+            }
+        }
+        let before = net.borrow().tx(0).len();
+        let mut f = Box::pin(stream.send_trailers(map));
+        match drive(&mut f) {
+            Some(Ok(())) => {}
+            Some(Err(_)) => return "send-trailers-failed".into(),
+            None => return "send-trailers-pending".into(),
+        }
+        let tx = net.borrow().tx(0);
+        wire(&tx[before..])
+    } else {
+        let req = http::Request::builder().method("GET").uri("https://a.com/").body(()).expect("request");
+        let (net, mut stream, _keep) = match client_with_request(req) {
+            Ok(x) => x,
+            Err(e) => return e,
+        };
+        let before = net.borrow().tx(0).len();
+        let mut f = Box::pin(stream.send_trailers(map));
+        match drive(&mut f) {
+            Some(Ok(())) => {}
+            Some(Err(_)) => return "send-trailers-failed".into(),
+            None => return "send-trailers-pending".into(),
+        }
+        let tx = net.borrow().tx(0);
+        wire(&tx[before..])
+    }
+}
+
+fn trailers_answer(r: Result<Option<HeaderMap>, StreamError>, net: &crate::c12_sim::NetRef) -> String {
+    let stop = net.borrow().streams[&0].borrow().stop_sending;
+    match r {
+        Ok(Some(m)) => format!("ok headers {}", print_map(m)),
+        Ok(None) => "none".into(),
+        Err(e) => format!("refused {} stop_sending={}", stream_error(&e), opt_code(stop)),
+    }
+}
+
+/// trailers received through the PUBLIC wrappers `recv_data` (until `None`) + `recv_trailers` of the client's / the
+/// server's request stream
+fn recv_trailers_site(server: bool, fields: &FieldList) -> String {
+    let Some(frame) = headers_frame(fields) else { return "qpack-encode-failed".into() };
+    if server {
+        let (net, mut stream, _keep) = match server_with_request(vec![get_frame(), frame]) {
+            Ok(x) => x,
+            Err(e) => return e,
+        };
+        loop {
+            let mut f = Box::pin(stream.recv_data());
+            match drive(&mut f) {
+                Some(Ok(Some(_))) => continue,
+                Some(Ok(None)) => break,
+                Some(Err(_)) => return "recv-data-failed".into(),
+                None => return "recv-data-pending".into(),
+            }
+        }
+        let mut f = Box::pin(stream.recv_trailers());
+        match drive(&mut f) {
+            Some(r) => trailers_answer(r, &net),
+            None => "pending".into(),
+        }
+    } else {
+        let req = http::Request::builder().method("GET").uri("https://a.com/").body(()).expect("request");
+        let (net, mut stream, _keep) = match client_with_request(req) {
+            Ok(x) => x,
+            Err(e) => return e,
+        };
+        {
+            let mut n = net.borrow_mut();
+            n.peer_send(0, Rx::Chunk(ok200_frame()));
+            n.peer_send(0, Rx::Chunk(frame));
+            n.peer_send(0, Rx::Fin);
+        }
+        {
+            let mut f = Box::pin(stream.recv_response());
+            if !matches!(drive(&mut f), Some(Ok(_))) {
+                return "recv-response-failed".into();
+            }
+        }
+        loop {
+            let mut f = Box::pin(stream.recv_data());
+            match drive(&mut f) {
+                Some(Ok(Some(_))) => continue,
+                Some(Ok(None)) => break,
+                Some(Err(_)) => return "recv-data-failed".into(),
+                None => return "recv-data-pending".into(),
+            }
+        }
+        let mut f = Box::pin(stream.recv_trailers());
+        match drive(&mut f) {
+            Some(r) => trailers_answer(r, &net),
+            None => "pending".into(),
+        }
+    }
+}
+
 // ---------------------------------------------------------------- sent side
 
 fn build_map(fields: &FieldList) -> Option<HeaderMap> {
@@ -511,7 +744,7 @@ pub fn handle(w: &[&str]) -> String {
             Some(fs) => verdicts(&fs),
             None => "bad-op".into(),
         },
-        ["hdr", op @ ("req" | "resp" | "trl" | "srv" | "cli"), f, vt] => {
+        ["hdr", op @ ("req" | "resp" | "trl" | "srv" | "cli" | "trlc" | "trls"), f, vt] => {
             let Some(fs) = parse_fields(f) else { return "bad-op".into() };
             if verdicts(&fs) != *vt {
                 return "bad-verdicts".into();
@@ -522,6 +755,9 @@ pub fn handle(w: &[&str]) -> String {
                 }
                 if *op == "srv" {
                     return server_site(&fs);
+                }
+                if *op == "trlc" || *op == "trls" {
+                    return recv_trailers_site(*op == "trls", &fs);
                 }
                 if *op == "cli" {
                     return client_site(&fs);
@@ -556,7 +792,7 @@ pub fn handle(w: &[&str]) -> String {
                 }
             })
         }
-        ["hdr", "sreq", m, s, a, p, pr, f] => {
+        ["hdr", op @ ("sreq" | "wreq"), m, s, a, p, pr, f] => {
             let (Some(m), Some(s), Some(a), Some(p), Some(pr), Some(fs)) =
                 (parse_hex(m), parse_opt(s), parse_opt(a), parse_opt(p), parse_opt(pr), parse_fields(f))
             else {
@@ -573,24 +809,33 @@ pub fn handle(w: &[&str]) -> String {
                     };
                     ext.insert(proto);
                 }
+                if *op == "wreq" {
+                    return send_request_site(method, uri, map, ext);
+                }
                 match Header::request(method, uri, map, ext) {
                     Err(e) => format!("reject {}", kind(&e)),
                     Ok(h) => print_sent(h),
                 }
             })
         }
-        ["hdr", "sresp", st, f] => {
+        ["hdr", op @ ("sresp" | "wresp"), st, f] => {
             let (Ok(st), Some(fs)) = (st.parse::<u16>(), parse_fields(f)) else { return "bad-op".into() };
             guarded(|| {
                 let Ok(status) = StatusCode::from_u16(st) else { return "unbuildable".into() };
                 let Some(map) = build_map(&fs) else { return "unbuildable".into() };
+                if *op == "wresp" {
+                    return send_response_site(status, map);
+                }
                 print_sent(Header::response(status, map))
             })
         }
-        ["hdr", "strl", f] => {
+        ["hdr", op @ ("strl" | "wtrlc" | "wtrls"), f] => {
             let Some(fs) = parse_fields(f) else { return "bad-op".into() };
             guarded(|| {
                 let Some(map) = build_map(&fs) else { return "unbuildable".into() };
+                if *op != "strl" {
+                    return send_trailers_site(*op == "wtrls", map);
+                }
                 print_sent(Header::trailer(map))
             })
         }
